@@ -10,6 +10,37 @@ sys.path.insert(0, V)
 TECH = 'deterministic simulation with fault injection: seeded search over call schedules, histories and injected faults (lsim), ddmin-minimised JSON replay'
 
 CLAIMED = {
+    'C04': dict(
+        design='7.8',
+        text=('Seeded deterministic simulation of the optics session with the tilt carrier as the varied dimension: one aperture per run '
+              '(monolithic or 2-4 segments with a tilt of its own per segment, plus a global tilt from a hundredth of a pixel to several '
+              'times the output; scalar or per-axis output pixels; oversampling 1-3; prop_shape <= shape) is imaged by the real '
+              'propagate_dft through every carrier -- Tilt planes split into 1-3 elements applied in seeded and reversed order, '
+              'Wavefront(tilt=), fit_tilt of the ramp-carrying OPD per segment, a fit / OPD-update / re-fit history, first-order '
+              'DispersiveTilt elements mixed with Tilt elements -- under cache-size faults, and compared with the eager twin (every tilt as '
+              'an OPD ramp in a monolithic pupil) on the samples every Field of both evaluates. Further oracles: Field.shift and the '
+              'observed window placement equal the statement\'s displacement (focal_length*angle/du*oversample per axis, +x to increasing '
+              'row, +y to decreasing column) and are additive and order-independent; fit_tilt leaves zero least-squares tip/tilt, keeps '
+              'the piston and OPD + recorded tilt equals the original; dispersive displacements lie on the trace at the arc length the '
+              'dispersion maps to the wavelength (orders 1 and 2). Exploration.'),
+        note=('The eager twin is imaged by the same propagate_dft, so an error common to both sides (C02) is invisible. Comparison is on '
+              'the common domain only; window positions are not judged within 1e-6 of a non-zero integer displacement. The history '
+              'dimension (re-fit, ordering) is real; the rest is a differential on pure functions, as DESIGN.md section 3 says.')),
+    'C07': dict(
+        design='7.6',
+        text=('Seeded deterministic simulation reaching wavefront states through programs: 1-4 plane multiplications (default, scalar '
+              'and array planes of even/odd/non-square shapes, monolithic or 2-4 segment masks with overlapping bounding boxes, Tilt planes, '
+              'fitted pupils), optionally a DFT propagation (random shape, prop_shape, oversampling, output mask, per-axis pixels), an Image '
+              'plane and a propagation back. After every step the public views are read: field and intensity are compared with the dense '
+              'zero-padded-plane model of the wavefront\'s documented fields (intensity == |field|^2 also where fields overlap), and '
+              'insert(out, weight) is driven into accumulators of arbitrary shape (smaller, larger, other parity, missing the wavefront '
+              'entirely) and arbitrary prior content (fault F2) and must leave before + weight*intensity and return the same array; before '
+              'any propagation the field must equal the product of the planes\' dense phasors amplitude*mask*exp(2 pi i OPD/lambda); '
+              'wavelength, focal-length hand-over and the default plane are checked; planes with conflicting pixel scales are injected '
+              '(fault F5) and must be refused with both operands byte-identical. Exploration.'),
+        note=('Weakest fit of the eight (DESIGN.md section 3): the simulator contributes reaching diverse multi-field states and dirty / '
+              'odd-shaped accumulators; the per-state check is a model comparison. States containing a one-element array field are not '
+              'judged (lentil documents one-element fields as broadcastable scalars). Propagation itself is not modelled.')),
     'C08': dict(
         design='7.1',
         text=('Seeded deterministic simulation: 1-3 simulated callers run programs (<= 12 steps each) of plane multiplications '
